@@ -3,7 +3,7 @@ import TextxVerif.LoadTree
 /-! JSON decoding / encoding for the load-tree driver (compiled with the library so that
 `lean --run Drivers/LoadTree.lean` starts fast). 
 ops:
-  {"op":"run","nclasses":n,"loads":[Load…]}
+  {"op":"run","nclasses":n,"loads":[Load…],"kw"?:[{"attrs","assigned","contained","extras"}…]}
       → {"ok":bool,"events":[[kind,pid,lab,[[cnt,instr,saved,nkeys]…]]…],
          "final":[[cnt,instr,saved,nkeys]…],"restored":[bool…]}
      loads[0] is run from the clean state; hooks may start loads[k] (k = action)
@@ -69,11 +69,19 @@ def cleanState (_n : Nat) : Sh Nat :=
 def snapJson (s : List (Nat × Bool × Bool × Nat)) : Json :=
   toJson (s.map fun (a, b, c, d) => Json.arr #[toJson a, toJson b, toJson c, toJson d])
 
+def kwOne (j : Json) : Option Json :=
+  match getStrList? j "attrs", getStrList? j "assigned", getBool? j "contained", getStrList? j "extras" with
+  | some a, some s, some c, some e => some (toJson (Kw.kwargs a (Kw.collected a s c e)))
+  | _, _, _, _ => none
+
 def handle (j : Json) : Json :=
   match getStr? j "op" with
   | some "run" =>
-    match getNat? j "nclasses", (getArr? j "loads").bind (fun a => a.toList.mapM parseLoad) with
-    | some n, some (L :: Ls) =>
+    let kw : Option (List Json) := match getArr? j "kw" with
+      | some a => a.toList.mapM kwOne
+      | none => if (getObj? j "kw").isSome then none else some []
+    match getNat? j "nclasses", (getArr? j "loads").bind (fun a => a.toList.mapM parseLoad), kw with
+    | some n, some (L :: Ls), some kws =>
       let table := L :: Ls
       let r := runF table (table.length + 1) L (cleanState n)
       let cs := List.range n
@@ -82,8 +90,9 @@ def handle (j : Json) : Json :=
         ("events", toJson (r.1.log.map fun e => Json.arr #[toJson e.kind, toJson e.pid, toJson e.lab, snapJson e.snap])),
         ("own", toJson (r.1.own.map fun e => e.lab)),
         ("final", snapJson (snapOf cs r.1)),
-        ("restored", toJson (cs.map fun c => decide ((r.1.core c).cur = .real c)))]
-    | _, _ => badOp
+        ("restored", toJson (cs.map fun c => decide ((r.1.core c).cur = .real c))),
+        ("kw", toJson kws)]
+    | _, _, _ => badOp
   | some "kwargs" =>
     match getStrList? j "attrs", getStrList? j "assigned", getBool? j "contained", getStrList? j "extras" with
     | some a, some s, some c, some e => Json.mkObj [("keys", toJson (Kw.kwargs a (Kw.collected a s c e)))]
